@@ -385,7 +385,8 @@ type c32TxSpec struct {
 	Tip        uint64 `json:"tip,omitempty"`
 	FeeCap     uint64 `json:"fee_cap,omitempty"` // gas price for legacy
 	BlobCapAdd uint64 `json:"blob_cap_above_fee,omitempty"`
-	Init       string `json:"init,omitempty"` // create: ok | revert | destruct_self | destruct_e
+	Init       string `json:"init,omitempty"`      // create: ok | revert | destruct_self | destruct_e
+	BigValue   string `json:"big_value,omitempty"` // decimal; overrides Value (amounts around 2^64 / 2^128 wei)
 	DataNZ     int    `json:"calldata_nonzero_bytes,omitempty"`
 	DataZ      int    `json:"calldata_zero_bytes,omitempty"`
 }
@@ -408,6 +409,18 @@ type c32Case struct {
 	ExactSender bool          `json:"sender_balance_exactly_max_cost,omitempty"`
 	Pow         *c32PowSpec   `json:"pow_chain,omitempty"`
 	Cross       *c32CrossSpec `json:"cross_transaction,omitempty"`
+}
+
+// c32Val: the wei value of a transaction spec.
+func c32Val(spec c32TxSpec) *big.Int {
+	if spec.BigValue != "" {
+		v, ok := new(big.Int).SetString(spec.BigValue, 10)
+		if !ok {
+			panic("bad big value " + spec.BigValue)
+		}
+		return v
+	}
+	return new(big.Int).SetUint64(spec.Value)
 }
 
 func c32BigPow10(n int64) *big.Int { return new(big.Int).Exp(big.NewInt(10), big.NewInt(n), nil) }
@@ -711,7 +724,7 @@ func c32Run(f c32Fork, units []c32Unit, seq []int, c c32Case) (outcome string, e
 		plans, crossCode, crossAlloc, expect = c32CrossPlan(f, c)
 	}
 	// ---- genesis
-	ample := c32BigPow10(30)
+	ample := c32BigPow10(45) // > 2^128 wei, far below 2^256
 	alloc := types.GenesisAlloc{
 		c32S:  {Balance: ample},
 		c32S2: {Balance: ample},
@@ -735,7 +748,7 @@ func c32Run(f c32Fork, units []c32Unit, seq []int, c c32Case) (outcome string, e
 		// the sender owns exactly gas limit x gas price + value: its balance is zero while the transaction runs and
 		// every later credit (refund of unused gas, ether sent back by the program) lands on a zero balance
 		exact := new(big.Int).Mul(big.NewInt(c32TxGas), new(big.Int).SetUint64(c.Tx.FeeCap))
-		exact.Add(exact, new(big.Int).SetUint64(c.Tx.Value))
+		exact.Add(exact, c32Val(c.Tx))
 		alloc[c32S] = types.Account{Balance: exact}
 	}
 	m := &c32Model{f: f, bal: map[common.Address]*big.Int{}, nonce: map[common.Address]uint64{}, created: map[common.Address]bool{}, destructed: map[common.Address]bool{}}
@@ -806,15 +819,15 @@ func c32Run(f c32Fork, units []c32Unit, seq []int, c c32Case) (outcome string, e
 		}
 		switch spec.Kind {
 		case "legacy":
-			return types.MustSignNewTx(tp.key, signer, &types.LegacyTx{Nonce: nonce, To: to, Gas: c32TxGas, GasPrice: new(big.Int).SetUint64(spec.FeeCap), Value: new(big.Int).SetUint64(spec.Value), Data: data})
+			return types.MustSignNewTx(tp.key, signer, &types.LegacyTx{Nonce: nonce, To: to, Gas: c32TxGas, GasPrice: new(big.Int).SetUint64(spec.FeeCap), Value: c32Val(spec), Data: data})
 		case "blob":
 			bcap := new(big.Int).Add(blobFee, new(big.Int).SetUint64(spec.BlobCapAdd))
 			return types.MustSignNewTx(tp.key, signer, &types.BlobTx{ChainID: uint256.MustFromBig(chainID), Nonce: nonce, To: *to, Gas: c32TxGas,
-				GasTipCap: uint256.NewInt(spec.Tip), GasFeeCap: uint256.NewInt(spec.FeeCap), Value: uint256.NewInt(spec.Value),
+				GasTipCap: uint256.NewInt(spec.Tip), GasFeeCap: uint256.NewInt(spec.FeeCap), Value: uint256.MustFromBig(c32Val(spec)),
 				BlobFeeCap: uint256.MustFromBig(bcap), BlobHashes: []common.Hash{{0: 0x01, 31: 0x42}}})
 		default:
 			return types.MustSignNewTx(tp.key, signer, &types.DynamicFeeTx{ChainID: chainID, Nonce: nonce, To: to, Gas: c32TxGas,
-				GasTipCap: new(big.Int).SetUint64(spec.Tip), GasFeeCap: new(big.Int).SetUint64(spec.FeeCap), Value: new(big.Int).SetUint64(spec.Value), Data: data})
+				GasTipCap: new(big.Int).SetUint64(spec.Tip), GasFeeCap: new(big.Int).SetUint64(spec.FeeCap), Value: c32Val(spec), Data: data})
 		}
 	}
 	// effective gas price (EIP-1559): base fee + min(tip cap, fee cap - base fee); legacy: the gas price.
@@ -840,7 +853,7 @@ func c32Run(f c32Fork, units []c32Unit, seq []int, c c32Case) (outcome string, e
 			m.get(tr.from).Sub(m.get(tr.from), fee)
 			delta.Sub(delta, fee) // burned
 		}
-		value := new(big.Int).SetUint64(tr.spec.Value)
+		value := c32Val(tr.spec)
 		status := uint64(1)
 		if tr.custom {
 			nonce := m.nonce[tr.from]
@@ -1110,6 +1123,8 @@ func TestVerif_C32(t *testing.T) {
 			"[fees] 10 programs x rule sets x block base fee {0,1,7,875000000} x every valid (tip, fee cap) in {0,1,7,1e9}^2, legacy prices {base, base+1, 1e9}, blob transactions (Cancun+, blob base fee > 1) x value {0,7}; [create] creation transactions with 4 init codes; " +
 			"[withdrawals] {1}, {1,3}, {0,2,5} gwei to an existing and an absent account (Shanghai+); [two] a second plain transfer from another sender in the same block; " +
 			"[zero-credit] every <=1-unit program with a sender owning exactly gas limit x price + value (refund and program credits land on a zero balance), price == base fee (coinbase stays at zero) and above; " +
+			"[amounts] withdrawals of {0, 1, 18446744073, 18446744074, 32e9, 2^40, 2^64-1} gwei singly and 3-7 per block (Shanghai+), transaction values and creation endowments of 2^64-1, 2^64, 2^64+1, 2^128-1, 2^128, 2^128+1 wei " +
+			"through 7 programs (incl. self-destruction burning / forwarding the big balance) and 4 creation init codes; the model credits amount x 10^9 wei in big integers; " +
 			"[cross-tx] first transaction creates a contract {creation transaction, factory CREATE, factory CREATE2} x constructor {without, with SSTORE} x endowment {0,500} x runtime {SELFDESTRUCT to self, to an EOA, plain}; " +
 			"a later transaction of the same block (and, as control, of the next block) {calls it with value (it self-destructs), calls it and then sends ether back in the same transaction, plain value call} x 7 rule sets; additionally asserted: the contract survives with nonce 1, its code and the model balance from Cancun on, is deleted before Cancun; " +
 			"[settlement] calldata {0, 4, 2000 zero, 1000, 1500+500 zero, 2000, 2500, 3000, 6000 non-zero bytes} (EIP-7623 floor 21000+10*tokens from not binding to binding) x execution {none, SSTORE set, SSTORE clear (refund), clear+set, clear+small work, " +
@@ -1202,6 +1217,47 @@ func TestVerif_C32(t *testing.T) {
 				}
 			}
 		}
+		// boundary amounts: withdrawals around the uint64 wei limit (18446744073.709 gwei) up to 2^64-1 gwei, several per block;
+		// transfer values and creation endowments around 2^64 and 2^128 wei
+		wBound := []uint64{0, 1, 18446744073, 18446744074, 32_000_000_000, 1 << 40, ^uint64(0)}
+		var wLists [][]uint64
+		for _, w := range wBound {
+			wLists = append(wLists, []uint64{w})
+		}
+		wLists = append(wLists, []uint64{0, 1, 18446744073, 18446744074}, []uint64{32_000_000_000, 1 << 40, ^uint64(0)}, wBound,
+			[]uint64{^uint64(0), ^uint64(0), 18446744074, 18446744074})
+		two := func(k uint, d int64) string {
+			return new(big.Int).Add(new(big.Int).Lsh(big.NewInt(1), k), big.NewInt(d)).String()
+		}
+		bigVals := []string{two(64, -1), two(64, 0), two(64, 1), two(128, -1), two(128, 0), two(128, 1)}
+		nBound := 0
+		for fi, f := range forks[:7] {
+			if f.shanghai {
+				for _, w := range wLists {
+					for _, seq := range [][]int{{}, {idx["call_eoa"]}, {idx["revert"]}} {
+						add(fi, seq, c32Case{GenesisFee: 8, Tx: dyn(7, 1, 1_000_000_000), Withdrawals: w, Insert: len(seq) == 0})
+						nBound++
+					}
+				}
+			}
+			for _, bv := range bigVals {
+				for _, u := range []string{"", "call_sender", "call_eoa", "selfdestruct_to_self", "selfdestruct_to_eoa", "delegatecall_destruct_to_eoa", "revert"} {
+					seq := []int{}
+					if u != "" {
+						seq = []int{idx[u]}
+					}
+					t := dyn(0, 1, 1_000_000_000)
+					t.BigValue = bv
+					add(fi, seq, c32Case{GenesisFee: 8, Tx: t, Insert: u == "selfdestruct_to_self"})
+					nBound++
+				}
+				for _, init := range []string{"ok", "revert", "destruct_self", "destruct_e"} {
+					add(fi, nil, c32Case{GenesisFee: 8, Tx: c32TxSpec{Kind: "create", BigValue: bv, Tip: 1, FeeCap: 1_000_000_000, Init: init}})
+					nBound++
+				}
+			}
+		}
+		r.Bound("boundary_amount_chains", nBound)
 		// cross-transaction leakage: a contract created by the first transaction is acted upon by a later one
 		nCross := 0
 		for fi := range forks[:7] {
